@@ -226,7 +226,7 @@ def make_riscv(mode="single", hz=True, dcache=None, icache=None, via=None):
     return sim
 
 
-def make_riscv_at(mode, ibase, hz=True, dcache=None, size=0x3000):
+def make_riscv_at(mode, ibase, hz=True, dcache=None, size=0x3000, icache=None):
     """a simulation whose instruction memory was given another address range (public constructor arguments): the
     program is placed, and execution starts, at the first address of that range"""
     from architecture_simulator.simulation.riscv_simulation import RiscvSimulation
@@ -235,6 +235,12 @@ def make_riscv_at(mode, ibase, hz=True, dcache=None, size=0x3000):
 
     pm = "".join(list("five_stage_pipeline" if mode == "five" else "single_stage_pipeline"))
     st = RiscvArchitecturalState(pipeline_mode=pm, detect_data_hazards=hz, instruction_memory=InstructionMemory(address_range=range(ibase, ibase + size)), data_cache_options=cache_options(dcache))
+    if icache:
+        # the caller puts an instruction cache in front of its own instruction memory (whose range need not be a
+        # multiple of the block size)
+        from architecture_simulator.uarch.memory.instruction_memory_cache_system import InstructionMemoryCacheSystem
+
+        st.instruction_memory = InstructionMemoryCacheSystem(InstructionMemory(address_range=range(ibase, ibase + size)), icache["ib"], icache["bb"], icache["assoc"], st.performance_metrics, icache.get("pen", 0), icache["policy"])
     return RiscvSimulation(state=st, mode=pm)
 
 
